@@ -21,7 +21,7 @@ enum { EV_LAUNCH_CALL = 1, EV_LAUNCH_RET, EV_FN_ENTER, EV_FN_EXIT, EV_ATEXIT, EV
 
 enum { F_MANAGED, F_MANUAL, F_NESTED_MANAGED, F_ATEXIT_MULTI, F_CREATE_FAILED, F_JOINALL_BEFORE_FINISH, F_JOINALL_AFTER_FINISH, F_NAMED, F_PINNED_RETRY,
        F_MANY_THREADS, F_MANUAL_LAUNCHES_MANAGED, F_STACK_SIZE, F_TIMED_JOINALL_GAVE_UP, F_REINIT_WITH_THREADS_OUTSTANDING,
-       F_TIMED_JOINALL_COMPLETED, F_EXTERNAL_PARTICIPANT, F_EXTERNAL_RELEASED_DURING_JOINALL, F_ATEXIT_FROM_CALL_ONCE };
+       F_TIMED_JOINALL_COMPLETED, F_EXTERNAL_PARTICIPANT, F_EXTERNAL_RELEASED_DURING_JOINALL, F_ATEXIT_FROM_CALL_ONCE, F_CONCURRENT_JOINALL };
 
 #define MAX_T 56
 #define MAX_ATEXIT 5
@@ -240,6 +240,7 @@ static void check(struct mon_event *ev, size_t n, const struct mon_alloc_stats *
         c[i].atexit_order_ok = 1;
     }
     uint64_t joinall_call[8], joinall_ret[8];
+    uint64_t joinall_call_by_lane[64] = {0};
     int njoinall = 0, njoinall_ret = 0;
     for (size_t i = 0; i < n; ++i) {
         struct mon_event *e = &ev[i];
@@ -312,12 +313,13 @@ static void check(struct mon_event *ev, size_t n, const struct mon_alloc_stats *
                 if (njoinall < 8) {
                     joinall_call[njoinall++] = e->t;
                 }
+                joinall_call_by_lane[e->tix & 63] = e->t;
                 break;
             case EV_JOINALL_RET: {
                 if (njoinall_ret < 8) {
                     joinall_ret[njoinall_ret++] = e->t;
                 }
-                uint64_t call_t = joinall_call[njoinall - 1];
+                uint64_t call_t = joinall_call_by_lane[e->tix & 63]; /* the call this return belongs to: join-all may run on two threads at once */
                 if (e->b /* timeout configured */ && e->a /* gave up, or result not visible (library clean-up) */) {
                     break;
                 }
@@ -395,6 +397,21 @@ static void check(struct mon_event *ev, size_t n, const struct mon_alloc_stats *
     }
 }
 
+/* a second thread that calls join-all on its own (thread.h allows any non-managed thread): both callers must get the
+ * guarantee, whichever of them ends up doing the joining */
+static uint32_t s_helper_nap_us;
+static void *joinall_helper_main(void *arg) {
+    (void)arg;
+    mon_ev_bind((unsigned)(MAX_T + 2 + 4));
+    perturb_bind(29);
+    nap(s_helper_nap_us);
+    mon_ev(EV_JOINALL_CALL, 0, 0, 0);
+    int rc = aws_thread_join_all_managed();
+    mon_ev(EV_JOINALL_RET, (uint64_t)rc, 0, 0);
+    MON_CHECK(rc == AWS_OP_SUCCESS, "C20:join-all-failed", "aws_thread_join_all_managed on a helper thread returned %d without a timeout configured", rc);
+    return NULL;
+}
+
 static void *owner_main(void *arg) {
     struct tdesc *d = arg;
     mon_ev_bind((unsigned)(MAX_T + 2 + d->owner_lane));
@@ -429,7 +446,7 @@ static void run_case(void) {
     mon_fp((uint64_t)prof_idx * 2 + faults);
     struct mon_alloc_stats st0;
     mon_guard_stats(&st0);
-    mon_ev_reset(MAX_T + 2 + 4, 128);
+    mon_ev_reset(MAX_T + 2 + 5, 128);
     mon_ev_bind(0);
     perturb_begin(pseed, &prof);
     perturb_bind(0);
@@ -471,6 +488,16 @@ static void run_case(void) {
         if (mon_chance(r, 1, 6)) {
             sched_yield();
         }
+    }
+    pthread_t helper;
+    bool have_helper = !timed_prelude && mon_chance(r, 1, 3);
+    if (have_helper) {
+        s_helper_nap_us = (uint32_t)mon_below(r, 1200);
+        if (perturb_create_harness_thread(&helper, joinall_helper_main, NULL)) {
+            fprintf(stderr, "mon: pthread_create failed\n");
+            exit(2);
+        }
+        mon_flag(F_CONCURRENT_JOINALL);
     }
     nap(main_nap);
     int unfinished_at_joinall = 0;
@@ -569,6 +596,9 @@ static void run_case(void) {
     for (int i = 0; i < nowners; ++i) {
         pthread_join(owners[i], NULL);
     }
+    if (have_helper) {
+        pthread_join(helper, NULL);
+    }
     perturb_end();
     mon_watchdog_disarm();
     size_t nev = 0;
@@ -651,7 +681,7 @@ int main(int argc, char **argv) {
                                   "16_or_more_threads", "manual_thread_launched_managed", "explicit_stack_size", "timed_join_all_gave_up",
                                   "library_reinit_with_managed_threads_outstanding", "timed_join_all_completed",
                                   "externally_counted_manual_thread", "external_decrement_while_join_all_blocked",
-                                  "at_exit_registered_inside_call_once"};
+                                  "at_exit_registered_inside_call_once", "join_all_called_from_a_second_thread_as_well"};
     for (int i = 0; i < (int)(sizeof(names) / sizeof(names[0])); ++i) {
         mon_flag_name(i, names[i]);
     }
